@@ -2,7 +2,7 @@
 EXTENDS Itext, Json
 RECURSIVE SetToSeq(_)
 SetToSeq(S) == IF S = {} THEN <<>> ELSE LET x == CHOOSE y \in S : TRUE IN <<x>> \o SetToSeq(S \ {x})
-Emit == PrintT(ToJson([dl |-> dl, cells |-> SetToSeq(Written), nchg |-> nchg]))
+Emit == PrintT(ToJson([dl |-> dl, refs |-> refs, cells |-> SetToSeq(Written), nchg |-> nchg]))
 \* design-level sanity of the generator: every question keeps a label
 QuestionsLabelled == \A i \in 1..Len(Pairs) : (Pairs[i][1] \in Questions /\ Pairs[i][2] = "label") => pat[i] # {}
 =============================================================================
